@@ -1,7 +1,10 @@
 /-
-C01 stage 2a — negation witnesses: concrete documents on which the *full* conservation statement
+C01 stage 2a — negation witness: a concrete document on which the *full* conservation statement
 ("every line of every box, out-of-flow boxes included, is shown exactly once") is false of the model —
-and, replayed by `py/harness/pm_oof_corr.py` (`corpus/C01/oof_*.json`), of the implementation.
+and, replayed by `py/harness/pm_oof_corr.py` (`corpus/C01/oof_lost_at_end.json`), of the implementation;
+and regression theorems for the witnesses whose defect was repaired in /repo (cdccac3, e3ac9f0, 50ab141):
+the same inputs, now with the correct behaviour (their corpus documents stay in the correspondence as
+regression cases).
 -/
 import WpModel.Model.PaginateOof
 
@@ -66,45 +69,132 @@ theorem lost_at_document_end :
     summary docLostFloat 20 = some [([(1, 0), (1, 1), (2, 0), (2, 1), (2, 2)], [(2, 3)])] :=
   ⟨by decide +kernel, by decide +kernel⟩
 
-/-! ### float-fragment-duplicated (known finding)
+/-! ### nested-out-of-flow-in-postponed-float (new finding, round 3: found by widening the grammar to floats inside floats)
+
+Two paragraphs (5 lines), then a `float` of `height: 30px` holding a 3-line float, on 70px pages with 10px
+lines: the outer float is laid out at `y = 50`; its inner float is cut after 2 lines and registered in
+`context.broken_out_of_flow` when the outer float's `block_container_layout` ends (the inner float *is* one of
+its `new_children`: the test of repair cdccac3 passes). The outer float then ends at 80 > 70 and is postponed
+to the next page (`_out_of_flow_layout`, `add_child` false) — nobody calls `remove_placeholders` on the
+discarded `new_child`, so the registration of the inner float stays. Page 2 shows the "continuation" (line 2)
+and then the whole outer float again: line 2 of the inner float is shown twice. -/
+
+def docNestedFloat : Doc :=
+  mkDoc 70 [.para 1 3 10 (flow st0), .para 6 2 10 (flow st0),
+    .block 3 (floated { st0 with height := some 30 }) [.para 2 3 10 (floated st0)]]
+
+theorem nested_float_in_postponed_float_duplicated :
+    summary docNestedFloat 20 = some
+      [([(1, 0), (1, 1), (1, 2), (6, 0), (6, 1)], [(2, 2)]),
+       ([(2, 2), (2, 0), (2, 1), (2, 2)], [])] := by decide +kernel
+
+/-! ### float-fragment-duplicated in the block flow — repaired (cdccac3), regression
 
 `<p>` of 2 lines, a 6-line full-width float, then a `<p style="break-before:avoid">`: the float is cut at the
 bottom of page 1 and registered in the *local* `broken_out_of_flow` of `block_container_layout`; the next
 paragraph does not fit, `find_earlier_page_break` moves the break into the first paragraph and drops the
-float from the page — `remove_placeholders` looks for it in `context.broken_out_of_flow`, where it is not
-yet, and the local dict is merged afterwards. Page 2 shows the continuation (lines 3–5) and then lays the
-float out again from line 0: lines 3, 4, 5 are shown twice (pages 2 and 3). -/
+float from the page. Before the repair the local dict was merged unconditionally: page 2 showed the
+continuation (lines 3–5) and then laid the float out again from line 0, lines 3, 4, 5 twice. Now only the
+entries whose float is still among `new_children` are merged (`keptBroken`): page 1 registers nothing, the
+float starts on page 2 and every line is shown once. -/
 
 def docDupFloat : Doc :=
   mkDoc 50 [.para 1 2 10 (flow st0), .para 2 6 10 (floated st0),
     .para 3 2 10 (flow { st0 with brkBefore := .avoid })]
 
-theorem float_fragment_duplicated :
+theorem float_fragment_not_duplicated :
     summary docDupFloat 20 = some
-      [([(1, 0)], [(2, 3)]),
-       ([(2, 3), (2, 4), (2, 5), (1, 1), (2, 0)], [(2, 1)]),
-       ([(2, 1), (2, 2), (2, 3), (2, 4), (2, 5), (3, 0)], []),
-       ([(3, 1)], [])] := by decide +kernel
+      [([(1, 0)], []),
+       ([(1, 1), (2, 0), (2, 1), (2, 2), (2, 3)], [(2, 4)]),
+       ([(2, 4), (2, 5), (3, 0), (3, 1)], [])] := by decide +kernel
 
-/-! ### absolute-placeholder-survives-abort (new finding)
+/-! ### absolute-placeholder-survives-abort — repaired (e3ac9f0), regression
 
 `<p>` of 2 lines, then a `<div>` holding an absolutely positioned 6-line `<p>`, a one-line
 `<p style="break-after:avoid">` and a 3-line `<p style="orphans:3">`: the last paragraph does not fit, the
-`avoid` finds no earlier break, the `<div>` is cancelled (`abort`) — but `remove_placeholders` is given the
-*source* children, which are never the placeholder objects: the placeholder stays in `absolute_boxes`, is
-laid out at the end of page 1 (on no fragment tree: invisible), cut, and registered. Page 2 shows its
-"continuation" (lines 3–5) *and* the whole `<div>` again with the absolute box from line 0: lines 3 and 4
-twice on page 2; line 5, cut again on the last page, is lost. -/
+`avoid` finds no earlier break, the `<div>` is cancelled (`abort`). Before the repair `remove_placeholders`
+was given the *source* children only: the placeholder stayed in `absolute_boxes`, was laid out invisibly at
+the end of page 1, cut and registered; page 2 showed its "continuation" and the whole `<div>` again (lines 3
+and 4 twice). Now the placeholders of `new_children` are removed as well: page 1 registers nothing and page
+2 shows the absolute box once, from line 0. (Its line 5 is cut by the bottom of the *last* page and lost:
+that is the other, still open finding `out-of-flow-lost-at-document-end`; with a following paragraph that
+makes a third page — `docAbsAbortTail` — every line of the document is shown exactly once.) -/
 
 def docAbsAbort : Doc :=
   mkDoc 50 [.para 1 2 10 (flow st0),
     .block 5 (flow st0) [.para 2 6 10 (absolute st0), .para 3 1 10 (flow { st0 with brkAfter := .avoid }),
       .para 4 3 10 (flow { st0 with orphans := 3 })]]
 
-theorem absolute_placeholder_survives_abort :
+theorem absolute_placeholder_removed_on_abort :
     summary docAbsAbort 20 = some
-      [([(1, 0), (1, 1)], [(2, 3)]),
-       ([(2, 3), (2, 4), (2, 5), (2, 0), (2, 1), (2, 2), (2, 3), (2, 4), (3, 0), (4, 0), (4, 1), (4, 2)], [(2, 5)])] := by
+      [([(1, 0), (1, 1)], []),
+       ([(2, 0), (2, 1), (2, 2), (2, 3), (2, 4), (3, 0), (4, 0), (4, 1), (4, 2)], [(2, 5)])] := by
   decide +kernel
+
+def docAbsAbortTail : Doc :=
+  mkDoc 50 [.para 1 2 10 (flow st0),
+    .block 5 (flow st0) [.para 2 6 10 (absolute st0), .para 3 1 10 (flow { st0 with brkAfter := .avoid }),
+      .para 4 3 10 (flow { st0 with orphans := 3 })],
+    .para 6 2 10 (flow st0)]
+
+theorem absolute_placeholder_removed_on_abort_conserved :
+    summary docAbsAbortTail 20 = some
+      [([(1, 0), (1, 1)], []),
+       ([(2, 0), (2, 1), (2, 2), (2, 3), (2, 4), (3, 0), (4, 0), (4, 1), (4, 2), (6, 0)], [(2, 5)]),
+       ([(2, 5), (6, 1)], [])] := by
+  decide +kernel
+
+/-! ### two more regression inputs of the same repairs (corpus `oof_float_dropped_by_later_float`,
+`oof_nested_abs_abort`)
+
+(1) The cut float is dropped by `find_earlier_page_break` called from `_out_of_flow_layout` (a *second*
+float with `break-before: avoid` does not fit) rather than from `_in_flow_layout`. (2) The placeholder of
+the cancelled block lies one level deeper (`remove_placeholders` walks `new_children` recursively). Both
+showed lines 3–5 of the out-of-flow paragraph twice before the repairs; every line is shown once now. -/
+
+def docDupFloat2 : Doc :=
+  mkDoc 50 [.para 1 2 10 (flow st0), .para 2 6 10 (floated st0),
+    .para 3 1 10 (floated { st0 with brkBefore := .avoid }), .para 4 1 10 (flow st0)]
+
+theorem cut_float_dropped_by_later_float :
+    summary docDupFloat2 20 = some
+      [([(1, 0)], []),
+       ([(1, 1), (2, 0), (2, 1), (2, 2), (2, 3)], [(2, 4)]),
+       ([(2, 4), (2, 5), (3, 0), (4, 0)], [])] := by decide +kernel
+
+def docAbsAbortNested : Doc :=
+  mkDoc 50 [.para 1 2 10 (flow st0),
+    .block 7 (flow st0) [.block 6 (flow st0) [.para 2 6 10 (absolute st0), .para 3 1 10 (flow st0)],
+      .para 4 1 10 (flow { st0 with brkBefore := .avoid, brkAfter := .avoid }),
+      .para 5 3 10 (flow { st0 with orphans := 3 })],
+    .para 8 2 10 (flow st0)]
+
+theorem nested_placeholder_removed_on_abort :
+    summary docAbsAbortNested 20 = some
+      [([(1, 0), (1, 1)], []),
+       ([(2, 0), (2, 1), (2, 2), (2, 3), (2, 4), (3, 0), (4, 0), (5, 0), (5, 1), (5, 2)], [(2, 5)]),
+       ([(2, 5), (8, 0), (8, 1)], [])] := by decide +kernel
+
+/-! ### zero-height float — repaired (50ab141), regression
+
+A float whose border box is 0 high (`height:0`, no padding/border) used to be sent to `y = 0` by
+`avoid_collisions`; it now stays at its static position: after a 2-line paragraph, at `y = 20`. -/
+
+def docZeroFloat : Doc :=
+  mkDoc 50 [.para 1 2 10 (flow st0), .para 2 1 10 (floated { st0 with height := some 0 }), .para 3 1 10 (flow st0)]
+
+mutual
+def fragYs : OFrag → List (Nat × Rat)
+  | .para _ id _ _ _ g _ => [(id, g.y)]
+  | .block _ id _ _ g kids => (id, g.y) :: fragYsList kids
+  | .ph _ id _ y => [(id, y)]
+def fragYsList : List OFrag → List (Nat × Rat)
+  | [] => []
+  | f :: fs => fragYs f ++ fragYsList fs
+end
+
+theorem zero_height_float_stays :
+    (paginate docZeroFloat 20).map (fun ps => ps.map fun p => fragYs p.root) =
+      some [[(100, 0), (99, 0), (1, 0), (2, 20), (3, 20)]] := by decide +kernel
 
 end Wp.PMO.Witness
